@@ -12,10 +12,14 @@ RG = "signal_hook_registry::half_lock::ReadGuard"
 WG = "signal_hook_registry::half_lock::WriteGuard"
 
 
+_F = [None]
+
+
 class Roles:
     """fields of the half lock located by type"""
 
     def __init__(self, F):
+        _F[0] = F
         a = F.adt(HL)
         fs = a["variants"][0]["fields"]
         self.ptr = [f["name"] for f in fs if re.match(r"^core::sync::atomic::Atomic<\*mut \w+>$", f["ty"])]
@@ -43,7 +47,23 @@ def hl_methods(F, T):
 
 def on_field(site, field):
     bt, f = recv_field(site)
-    return f == field and bt is not None and HL in bt
+    if f == field and bt is not None and HL in bt:
+        return True
+    # the atomic may be selected by a private helper returning a reference into the lock (`self.slot_for(gen)`)
+    F = _F[0]
+    if F is None:
+        return False
+    for e in site.recv:
+        x = e
+        while x[0] in ("ref", "deref"):
+            x = deep_strip(x[1])
+        if x[0] == "call" and x[2] is not None:
+            c = F.inst[x[2]]
+            if c.local and c.body is not None and c.crate == "signal_hook_registry":
+                rets = [deep_strip(r) for rb in c.exits() for r in flow(c).place({"l": 0, "p": []}, (rb, len(c.stmts(rb))))]
+                if rets and all(mentions(r, lambda y: y[0] == "field" and y[2] == field and HL in (y[4] or "")) for r in rets):
+                    return True
+    return False
 
 
 def closures_of(F, m):
@@ -112,13 +132,29 @@ def rule_a(ctx, R, T):
         raise AnchorLost("HalfLock<%s>: expected exactly one swap of the snapshot pointer, found %d" % (T, len(sw)))
     s = sw[0]; m = s.inst
     ctx.fn(m)
-    frees = call_sites(F, m, lambda c: c.defp == "alloc::boxed::Box::<T>::from_raw")
-    frees = [(bb, t, c) for (bb, t, c) in frees if any(mentions(e, lambda x: x[0] == "call" and x[1] == s.bb) for e in flow(m).term_arg(bb, 0))]
+    raws = call_sites(F, m, lambda c: c.defp == "alloc::boxed::Box::<T>::from_raw")
+    raws = [(bb, t, c) for (bb, t, c) in raws if any(mentions(e, lambda x: x[0] == "call" and x[1] == s.bb) for e in flow(m).term_arg(bb, 0))]
     key = "writer-order:%s" % T
-    if not frees:
+    if not raws:
         # the old box may be handed to a helper; then the helper call is the "free"
         ctx.bad(rid, key, "the pointer returned by the swap never reaches Box::from_raw in %s (old snapshot leaked or freed elsewhere)" % m.name, s.sp)
         return None
+    # free points: where the rebuilt box is actually dropped (a Drop terminator on it, or mem::drop of it) on non-cleanup paths
+    frees = []
+    for (rb, rt, rc) in raws:
+        fl = flow(m)
+        for bb, bl in enumerate(m.blocks):
+            if bl["cleanup"]:
+                continue
+            t = bl["t"]
+            if t["k"] == "drop" and "alloc::boxed::Box<" in t["ty"]:
+                if any(mentions(e, lambda x: x[0] == "call" and x[1] == rb) for e in fl.term_place(bb, t["p"])):
+                    frees.append((bb, t, rc))
+            if t["k"] == "call" and (t.get("def") or "") == "core::mem::drop" and t["args"]:
+                if any(mentions(e, lambda x: x[0] == "call" and x[1] == rb) for e in fl.term_arg(bb, 0)):
+                    frees.append((bb, t, rc))
+        if not [f for f in frees]:
+            frees.append((rb, rt, rc))      # dropped implicitly at the from_raw site (temporary): the site itself is the free point
     barrier_calls = []
     for bb, t in m.calls():
         if t.get("f") is None:
@@ -398,6 +434,7 @@ def rule_g(ctx):
 
 
 def run(ctx):
+    _F[0] = ctx.F
     from .. import fixtures
     ctx.guarded("C01.FX", lambda c: fixtures.run(c, ['escapes', 'orderings', 'effects']))
     F = ctx.F
